@@ -24,12 +24,15 @@ func init() {
 			{Name: "inputs/mutated-documents", Count: core.FixedCount(30000, 800000), BlockIsViolation: true, Run: func(c *core.Ctx, idx int) { cdcnmon.RunC12Random(c, "mutated") }},
 			{Name: "inputs/kind-context-mismatch", Count: core.FixedCount(cdcnmon.C12MismatchCases(), cdcnmon.C12MismatchCases()*8), BlockIsViolation: true, Run: cdcnmon.RunC12Mismatch},
 			{Name: "inputs/reused-notation", Count: core.FixedCount(8000, 150000), BlockIsViolation: true, Run: func(c *core.Ctx, idx int) { cdcnmon.RunReusedNotation(c, "C12") }},
-			{Name: "m1/scanner-parser-schedules", Count: core.FixedCount(300, 6000), CPULimit: 600,
+			{Name: "m1/scanner-parser-schedules", Pool: "m1", Count: core.FixedCount(300, 6000), CPULimit: 600,
 				Run: func(c *core.Ctx, idx int) {
 					if conc.M1Disabled(c) {
 						return
 					}
 					cdcnmon.RunC11M1(c, true, ExploreParse)
+					for k, n := range conc.AbandonedParses {
+						c.CoverN(k, n)
+					}
 				}},
 			{Name: "fuzz/coverage-guided", Count: core.FixedCount(1, 1), MaxWorkers: 1, CPULimit: 7200, Run: func(c *core.Ctx, idx int) { cdcnmon.RunC12Fuzz(c) }},
 			{Name: "inputs/injected-character", Count: core.FixedCount(10000, 300000), BlockIsViolation: true, Run: func(c *core.Ctx, idx int) { cdcnmon.RunC12Injection(c) }},
